@@ -6,6 +6,7 @@ CONSTANTS
   MaxIssued = 2
   Rebootstrap = FALSE
   Wipeouts = FALSE
+  Collide = TRUE
   Times = {1}
   Design = "atomic"
 SPECIFICATION Spec
